@@ -111,9 +111,10 @@ theorem defs_rendered_once_counterexample :
     defsOnceOk (processFootnotes asciiNorm W.nestedDup) = false ∧
     ¬ (tokDefIds (renderToks {} {} (processFootnotes asciiNorm W.nestedDup))).Nodup := by decide
 
-/-- `refs_point_to_rendered_def` fails when label normalisation is not idempotent (a label starting with
-    U+00A0): the reference carries `keep (keep label)`, the definition `keep label`. -/
-theorem refs_point_to_rendered_def_counterexample :
-    refsPointOk ⟨id, id⟩ (processFootnotes nbspNorm W.nbsp) = false := by decide
+/-- Witness of a repaired defect: when label normalisation is not idempotent (a label starting with
+    U+00A0) the pinned tree gave the reference `keep (keep label)` and the definition `keep label`;
+    since the `fix:` commit the reference copies the stored name, and the clause holds on the witness. -/
+theorem refs_point_to_rendered_def_after_fix :
+    refsPointOk ⟨id, id⟩ (processFootnotes nbspNorm W.nbsp) = true := by decide
 
 end Comrak.C15
